@@ -38,12 +38,12 @@ from harness.tla_values import to_tla
 from phonopy import Phonopy
 from phonopy.structure.grid_points import GridPoints, length2mesh
 
-IMPL_INVS = ["ImplMeshIsRequested", "ImplEquivalentAxesEqual", "ImplGridComplete", "ImplMapWellFormed", "ImplEveryPointIsImageHalf",
+IMPL_INVS = ["ImplMeshIsRequested", "ImplEquivalentAxesEqual", "ImplQInFirstZone", "ImplQvCongruent", "ImplGridComplete", "ImplMapWellFormed", "ImplEveryPointIsImageHalf",
              "ImplEveryPointIsImageGeneric", "ImplIrWeights", "ImplWeightsSum", "ImplQpointsHalf",
              "ImplQpointsGeneric", "ImplExact", "ImplOffIsFull", "ImplSymOnOffEqual", "ImplGroupIsExact"]
 CONF_INVS = ["ConformsInitMesh", "ConformsMesh", "ConformsIsShift", "ConformsIndexConvention", "ConformsMap",
              "ConformsIr", "ConformsQpoints"]
-EVENT_INVS = ["EventRotsInCrystalGroup", "EventBoundaryRaw"]
+EVENT_INVS = ["EventRotsInCrystalGroup", "EventBoundaryRaw", "EventBzBoxSound"]
 MODEL_INVS = ["TypeOK", "InvLengthRule", "InvBoundaryTheorem", "InvEquivalentAxesEqual", "InvMeshIsRequested", "InvGridComplete", "InvEveryPointIsImage", "InvIrWeights",
               "InvWeightsSum", "InvQpoints", "InvOffIsFull", "InvSymOnOffEqual", "InvCharacterisation",
               "InvClassesAreOrbits"]
@@ -139,11 +139,56 @@ def call_gridpoints(cfg, world, crystal, fit, norots=False):
     return gp
 
 
-def make_event(eid, cfg, crystal, full, gp, passed=None):
+BZ_OFF = dict(on=False, G=[[1, 0, 0], [0, 1, 0], [0, 0, 1]], D=1, B=1, qv=[])
+
+
+def _adj_int(G):
+    G = np.array(G, dtype=np.int64)
+    c = np.zeros((3, 3), dtype=np.int64)
+    for i in range(3):
+        for j in range(3):
+            m = np.delete(np.delete(G, i, 0), j, 1)
+            c[i, j] = (-1) ** (i + j) * (m[0, 0] * m[1, 1] - m[0, 1] * m[1, 0])
+    return c.T
+
+
+def bz_record(gp, cfg, gram):
+    """Handed-out q-points as integers over D = 2 sd lcm(mesh) (not reduced modulo D) with the exact integer
+    Gram matrix of the reciprocal basis (Adj of the crystal's Gram matrix, common factor removed) and a box
+    half-width for which BoxSound holds (re-checked by TLC: EventBzBoxSound); off when numbers would leave
+    TLC's 32-bit range."""
+    mesh = [int(x) for x in gp.mesh_numbers]
+    D = 2 * cfg["sd"] * int(np.lcm.reduce(mesh))
+    q = np.array(gp.qpoints, dtype=float) * D
+    qv = np.rint(q)
+    if q.size == 0 or float(np.abs(q - qv).max()) > 1e-6:
+        return BZ_OFF
+    qv = qv.astype(np.int64)
+    Grec = _adj_int(gram)
+    Grec = Grec // int(np.gcd.reduce(np.abs(Grec).ravel()))
+    det = int(round(np.linalg.det(Grec.astype(float))))
+    A = _adj_int(Grec)
+    L = np.einsum("ki,ij,kj->k", qv, Grec, qv)
+    for b in (1, 2, 3):
+        w = D * (b + 1) - np.abs(qv)
+        if w.min() <= 0:
+            continue
+        lhs = w.astype(object) ** 2 * det
+        rhs = np.outer(L, np.diag(A)).astype(object)
+        if max(int(lhs.max()), int(rhs.max())) >= 2 ** 30:
+            return BZ_OFF
+        if np.all(lhs > rhs):
+            return dict(on=True, G=[[int(x) for x in r] for r in Grec], D=int(D), B=b,
+                        qv=[[int(x) for x in r] for r in qv])
+    return BZ_OFF
+
+
+def make_event(eid, cfg, crystal, full, gp, passed=None, gram=None):
     res, ish, mesh, resid = cm.project(gp, cfg, None)
     ev = dict(id=eid, cfg={k: v for k, v in cfg.items() if not k.startswith("_")}, crystal=crystal, full=full,
               isShift=ish, mesh=mesh, res=res,
-              bnd=cfg.get("_bnd") or dict(k=0, j=1, p=1, side="none", sign="none"))
+              bnd=cfg.get("_bnd") or dict(k=0, j=1, p=1, side="none", sign="none"),
+              bz=bz_record(gp, cfg, gram) if gram is not None else BZ_OFF)
     if passed is not None:
         ev["passed"] = passed
     return ev, resid
@@ -311,6 +356,32 @@ class ApiWorld:
                         c, len(ph.primitive_symmetry.pointgroup_operations), self.SYMPREC))
                 self.strained["%s~%s" % (c, sign)] = dict(ph=ph, c=c, j=j_, p=p_, sign=sign, L=L)
 
+    def polar(self, ctx):
+        """Wurtzite-like polar crystal (catalogue 'wz', randomly oriented hexagonal lattice) with Born charges and
+        dielectric tensor of the site/point symmetry (3m / 6mm: diagonal in the hexagonal frame, opposite on the
+        two species) and the non-analytical term by Wang's method - the only frequency model that is not periodic
+        in reciprocal lattice vectors, so it sees WHICH member of a class q + G is handed out."""
+        if getattr(self, "_polar", None) is None:
+            S = [[2, 0, 0], [0, 2, 0], [0, 0, 2]]
+            orc = cm.MeshOracle("wz", [S], a=1.7, seed=ctx.seed + 5, ctx=ctx)
+            L0 = xtal.lattice_from_gram(orc.G, a=1.7, rng=None)
+            R = np.linalg.inv(L0) @ orc.L  # cart = cart0 @ R
+            if np.abs(R @ R.T - np.eye(3)).max() > 1e-9:
+                raise tlcmod.MachineryError("orientation of the wz lattice is not a rotation")
+            u = orc.unitcell()
+            zt = lambda sgn: R.T @ np.diag([1.3 * sgn, 1.3 * sgn, 1.7 * sgn]) @ R
+            born = np.array([zt(1.0 if sym_ == u.symbols[0] else -1.0) for sym_ in u.symbols])
+            eps = R.T @ np.diag([3.5, 3.5, 4.2]) @ R
+            with contextlib.redirect_stdout(io.StringIO()):
+                ph = Phonopy(u, supercell_matrix=S)
+            ph.force_constants = orc.supercell_fc(S, ph.supercell)
+            ph.nac_params = dict(born=born, dielectric=eps, factor=14.4, method="wang")
+            if type(ph.dynamical_matrix).__name__ != "DynamicalMatrixWang":
+                raise tlcmod.MachineryError("Wang NAC not active: %s" % type(ph.dynamical_matrix).__name__)
+            self._polar = ph
+            self.ph_polar_label = "wz~wang"
+        return self._polar
+
     def boundary_cfgs(self, ctx):
         """Length-specified meshes just across a rounding boundary (BoundaryCases of MeshGrid.tla), each with
         mesh symmetry on and off."""
@@ -338,7 +409,10 @@ class ApiWorld:
     def init_mesh(self, cfg, crystal, run=False, label=None):
         """Phonopy.init_mesh / run_mesh with the GridPoints construction recorded."""
         label = label or cfg.get("_label")
-        ph = self.strained[label]["ph"] if label in self.strained else self.ph[label or crystal]
+        if label == "wz~wang":
+            ph = self._polar
+        else:
+            ph = self.strained[label]["ph"] if label in self.strained else self.ph[label or crystal]
         shift = cm.shift_float(cfg)
         mesh = cfg["_length"] if cfg["len"] else cfg["mesh"]
         with cm.Recorder() as rec:
@@ -458,13 +532,16 @@ def grid_events(ctx, world):
         c = cfg["_crystal"]
         norots = (cfg["grp"] == "tric") and rng.random() < 0.5  # rotations=None means the identity only
         try:
-            gp = call_gridpoints(cfg, world, c, fit=rng.random() < 0.6, norots=norots)
+            fit = rng.random() < 0.6
+            gp = call_gridpoints(cfg, world, c, fit=fit, norots=norots)
         except Exception as e:
             ctx.violation(classify(cfg, None, world) + ":trace:exception",
                           "C09: GridPoints raised %s where the specification expects a grid" % type(e).__name__,
                           dict(cfg=strip(cfg), err=repr(e)))
             continue
-        ev, resid = make_event(len(events), cfg, c, cfg["grp"] == c, gp)
+        # first-zone requirement: fit_in_BZ calls on the exact catalogue lattice
+        gram = world.pgs[c]["G"] if (fit and "_L" not in cfg) else None
+        ev, resid = make_event(len(events), cfg, c, cfg["grp"] == c, gp, gram=gram)
         events.append(ev)
         ctx.count(("grid", json.dumps(strip(cfg), sort_keys=True)))
     return events
@@ -507,6 +584,8 @@ def report(ctx, world, events, viols, tag):
         detail = None
         if e:
             detail = dict(invariant=name, cfg=e["cfg"], crystal=e["crystal"], length=e.get("length"),
+                          handed_out_q_times_D=(e["bz"]["qv"], e["bz"]["D"]) if e["bz"]["on"] else None,
+                          reciprocal_gram=e["bz"]["G"] if e["bz"]["on"] else None,
                           boundary_case=e["bnd"] if e["bnd"]["k"] else None, rotations=world.table[e["cfg"]["grp"]],
                           isShift=e["isShift"], mesh=e["mesh"], grid_mapping_table=e["res"]["map"],
                           ir_grid_points=e["res"]["ir"], weights=e["res"]["weights"], passed=e.get("passed"))
@@ -648,7 +727,7 @@ def api_events(ctx, world, apiw, events_start):
                                   "C09: mesh sampling raised %s where the specification expects a result" % type(e).__name__,
                                   dict(cfg=strip(cfg), err=repr(e)))
                     continue
-                ev, resid = make_event(events_start + len(events), cfg, c, True, gp, passed)
+                ev, resid = make_event(events_start + len(events), cfg, c, True, gp, passed, gram=world.pgs[c]["G"])
                 events.append(ev)
                 ctx.count(("api", json.dumps(strip(cfg), sort_keys=True)))
             on, off = pair.get(True), pair.get(False)
@@ -683,6 +762,47 @@ def api_events(ctx, world, apiw, events_start):
                                   "C09: frequencies of the full mesh differ from those of the class representatives "
                                   "(relative %.3g)" % errf,
                                   dict(crystal=c, cfg=strip(on["cfg"]), relative_difference=errf))
+    # polar crystal with Wang's non-analytical term (not periodic in G): weighted sums on/off
+    php = apiw.polar(ctx)
+    pcombos = [(m, sh, g, t) for m in [(3, 3, 2), (4, 4, 2), (3, 3, 3), (2, 2, 2), (5, 5, 2)]
+               for sh in (HALF_SHIFTS[0], HALF_SHIFTS[6], HALF_SHIFTS[7]) for g in (True, False) for t in (True, False)]
+    rng.shuffle(pcombos)
+    pcombos = [((3, 3, 2), HALF_SHIFTS[0], True, True), ((4, 4, 2), HALF_SHIFTS[0], False, True)] + pcombos
+    npolar = 0
+    for (m, (sn, sd), gamma, tr) in pcombos[: (7 if quick else 40)]:
+        pair = {}
+        fmax = None
+        for sym in (True, False):
+            cfg = dict(level="api", len=False, mesh=list(m), sn=list(sn), sd=sd, gamma=gamma, tr=tr, sym=sym,
+                       grp="wz", _crystal="wz", _label="wz~wang")
+            try:
+                gp, passed = apiw.init_mesh(cfg, "wz", run=True)
+                freqs = np.array(php.get_mesh_dict()["frequencies"])
+                if fmax is None:
+                    fmax = float(np.abs(freqs).max()) or 1.0
+                pair[sym] = dict(cfg=cfg, gp=gp, vals=dict(thermal=thermal(php), moments=moments(php), dos=dos(php, fmax)))
+            except Exception as e:
+                ctx.violation("regular:api:exception", "C09: mesh sampling with Wang NAC raised %s" % type(e).__name__,
+                              dict(cfg=strip(cfg), err=repr(e)))
+                continue
+            ev, resid = make_event(events_start + len(events), cfg, "wz", True, gp, passed, gram=world.pgs["wz"]["G"])
+            events.append(ev)
+            ctx.count(("api-wang", json.dumps(strip(cfg), sort_keys=True)))
+        if True in pair and False in pair:
+            on, off = pair[True], pair[False]
+            cls = classify(on["cfg"], [int(x) for x in on["gp"]._is_shift], world, [int(x) for x in on["gp"].mesh_numbers])
+            for q in sorted(on["vals"]):
+                a, b = on["vals"][q], off["vals"][q]
+                err = float(np.abs(a - b).max() / max(np.abs(b).max(), 1e-30)) if a.shape == b.shape else 1.0
+                margins.append(err)
+                npolar += 1
+                if not (err < 1e-9):
+                    ctx.violation("%s:api:%s-wang-nac-on-off" % (cls, q),
+                                  "C09: %s with Wang NAC (not G-periodic) differs between mesh symmetry on and off "
+                                  "(relative %.3g)" % (q, err),
+                                  dict(crystal="wz, Wang NAC", cfg=strip(on["cfg"]), quantity=q, relative_difference=err,
+                                       qpoints_on=np.array(on["gp"].qpoints).tolist()))
+    ctx.extra["wang_nac_on_off_comparisons"] = npolar
     # length-specified meshes across rounding boundaries on strained cells, mesh symmetry on and off
     nb = 0
     for cfg in apiw.boundary_cfgs(ctx):
@@ -711,7 +831,7 @@ def run(ctx):
     ctx.rule = ("one case = one sampling-mesh construction (crystal/point group or subgroup, mesh numbers or length, "
                 "shift, gamma-centre, time reversal, mesh symmetry, GridPoints or init_mesh level); distinct "
                 "configurations are counted; the weighted-sum step counts (crystal, configuration) pairs on/off")
-    names = ["sc", "hcp", "tetab", "tric", "fccp", "rhp", "ocp", "mcp", "mcp2", "bctp"] if quick else cm.ALL_NAMES
+    names = ["sc", "hcp", "wz", "tetab", "tric", "fccp", "rhp", "ocp", "mcp", "mcp2", "bctp"] if quick else cm.ALL_NAMES
     world = World(ctx, names)
     api_crystals = ["hcp", "ocp", "mcp2"] if quick else ["sc", "hcp", "wz", "tetab", "tric", "fccp", "rhp", "ocp",
                                                          "mcp", "mcp2", "bctp", "ortho", "cscl"]
